@@ -1260,10 +1260,14 @@ def c05_tree(model, meta):
         vanish = [int(x) for x in model.get("vanish", []) if int(x) != me and int(x) in procs]
         real_map = psutil._ppid_map
 
+        keep_dir = bool(model.get("keep_dir"))
+
         def map_then_vanish():
             m = real_map()
             for v in vanish:      # the process exits right after the snapshot was taken
                 shutil.rmtree(os.path.join(psutil.PROCFS_PATH, str(v)), ignore_errors=True)
+                if keep_dir:      # ... and the kernel keeps its (now empty) /proc/<pid> directory for a moment (#2418)
+                    os.makedirs(os.path.join(psutil.PROCFS_PATH, str(v)), exist_ok=True)
             return m
 
         # a process exiting *while the snapshot is taken*: its stat file cannot be opened any more (ENOENT) or was opened
@@ -1355,7 +1359,7 @@ def c05_tree_search(meta, seed, budget):
             n += 1
             if n % 3 == 0:
                 yield {"procs": {str(p): [pp[i], starts[i]] for i, p in enumerate(pids)}, "self": 10,
-                       "vanish": [rng.choice([11, 12, 13])]}
+                       "vanish": [rng.choice([11, 12, 13])], "keep_dir": n % 2 == 0}
                 n += 1
             if n % 4 == 0:
                 yield {"procs": {str(p): [pp[i], starts[i]] for i, p in enumerate(pids)}, "self": 10,
